@@ -29,6 +29,15 @@ const (
 type Val struct {
 	K Kind
 	C constant.Value
+	// Fn: for K == Ref, the function the value is known to be (function-valued
+	// table entries), so that a call through it can be folded.
+	Fn *ssa.Function
+	// constant byte buffers and small local arrays (bytes.go; Evaluator.Bytes)
+	B             *Buf
+	BK            int
+	Off, Len, Cap int
+	// Tag names an opaque standard-library object (a base64 encoding)
+	Tag string
 }
 
 func (v Val) String() string {
@@ -40,7 +49,7 @@ func (v Val) String() string {
 	case Err:
 		return "error"
 	case Ref:
-		return "ref"
+		return v.bufString()
 	}
 	return "?"
 }
@@ -81,6 +90,11 @@ type Evaluator struct {
 	// the instruction Watch (at any call depth), with a reader of the values there.
 	Watch   ssa.Instruction
 	OnWatch func(get func(ssa.Value) Val)
+	// Bytes enables the byte-buffer constant domain (bytes.go). With it, a branch
+	// that does not fold while a buffer is live makes the evaluation undecided.
+	Bytes  bool
+	bufs   int
+	impure bool
 }
 
 // New returns an evaluator with default limits.
@@ -100,8 +114,9 @@ func B(b bool) Val { return Val{K: Const, C: constant.MakeBool(b)} }
 // false when the budget was exhausted (result incomplete).
 func (e *Evaluator) Eval(fn *ssa.Function, args []Val, env Env) (outs []Outcome, ok bool) {
 	e.fuel = e.Fuel
+	e.bufs, e.impure = 0, false
 	outs = e.eval(fn, args, env, 0)
-	return outs, e.fuel > 0
+	return outs, e.fuel > 0 && !e.impure
 }
 
 type frame struct {
@@ -181,6 +196,13 @@ func (e *Evaluator) eval(fn *ssa.Function, args []Val, env Env, depth int) []Out
 					} else {
 						// explore both; bound revisits on unknown conditions
 						e.Forks++
+						if e.Bytes && e.bufs > 0 {
+							// the two sides would share the live buffers
+							e.impure = true
+							e.fuel = 0
+							fork = true
+							break
+						}
 						if st.visits[b] > 3 {
 							next = nil
 							fork = true
@@ -202,6 +224,9 @@ func (e *Evaluator) eval(fn *ssa.Function, args []Val, env Env, depth int) []Out
 				case *ssa.Jump:
 					next = b.Succs[0]
 				case *ssa.Store:
+					if e.Bytes && !e.storeBytes(vals, x) {
+						e.impure = true
+					}
 					if fa, ok := x.Addr.(*ssa.FieldAddr); ok {
 						if st, ok := fa.X.Type().Underlying().(*types.Pointer).Elem().Underlying().(*types.Struct); ok {
 							vals[storeKey{st.Field(fa.Field).Name()}] = e.get(vals, x.Val)
@@ -266,6 +291,11 @@ func (e *Evaluator) get(vals map[ssa.Value]Val, v ssa.Value) Val {
 }
 
 func (e *Evaluator) step(vals map[ssa.Value]Val, v ssa.Value, pred *ssa.BasicBlock, env Env, depth int) Val {
+	if e.Bytes {
+		if bv, handled := e.stepBytes(vals, v); handled {
+			return bv
+		}
+	}
 	switch x := v.(type) {
 	case *ssa.Phi:
 		for i, p := range x.Block().Preds {
@@ -479,7 +509,27 @@ func GlobalMap(g *ssa.Global) (map[string]Val, bool) {
 			} else if sk, okS := StdlibConst(x.Key); okS {
 				kv = sk
 			}
+			// function-valued entries (tables of helpers)
+			fv := x.Value
+			if ct, isCT := fv.(*ssa.ChangeType); isCT {
+				fv = ct.X
+			}
+			if mc, isMC := fv.(*ssa.MakeClosure); isMC && len(mc.Bindings) == 0 {
+				fv = mc.Fn
+			}
+			if fn, isFn := fv.(*ssa.Function); isFn && kv != nil {
+				keyConsts[kv.ExactString()] = kv
+				tbl[kv.ExactString()] = Val{K: Ref, Fn: fn}
+				continue
+			}
 			v, ok2 := x.Value.(*ssa.Const)
+			if kv != nil && !ok2 {
+				// a value we do not model (struct literal, slice): the key is still known to be
+				// present, which is what comma-ok membership tests need
+				keyConsts[kv.ExactString()] = kv
+				tbl[kv.ExactString()] = Val{}
+				continue
+			}
 			if kv == nil || !ok2 {
 				complete = false
 				continue
@@ -642,6 +692,11 @@ func isErrIface(t types.Type) bool {
 
 func (e *Evaluator) call(vals map[ssa.Value]Val, c *ssa.Call, env Env, depth int) Val {
 	cc := &c.Call
+	if e.Bytes {
+		if bv, handled := e.callBytes(vals, c); handled {
+			return bv
+		}
+	}
 	if b, ok := cc.Value.(*ssa.Builtin); ok {
 		switch b.Name() {
 		case "len":
@@ -673,6 +728,11 @@ func (e *Evaluator) call(vals map[ssa.Value]Val, c *ssa.Call, env Env, depth int
 		return Val{}
 	}
 	callee := cc.StaticCallee()
+	if callee == nil && !cc.IsInvoke() {
+		if fv := e.get(vals, cc.Value); fv.Fn != nil {
+			callee = fv.Fn
+		}
+	}
 	if callee == nil && e.Resolve != nil {
 		callee = e.Resolve(cc)
 	}
